@@ -19,7 +19,7 @@ PROPS = {
 }
 
 PROPS["C13"] = {
-    "suites": ["renumber"],
+    "suites": ["renumber", "tree_frame"],
     "level_text": "Kernel-checked theorems for all byte contents and all counter states about a Gallina transcription of processYaml/formatEndOfFile: the shared index is max(ids, titles) in every reachable state, the number written on every key line, lines without a key are copied unchanged, the output is empty or ends with exactly one newline; the unguarded 'n-th test_id is n' is refuted by a model witness that replays on the code (known finding). Tied by pins on the two patterns and the function literals and by differential runs against processYaml.",
     "level_note": "Trusted: Coq kernel, translator, extraction, harness. Modelled: processYaml, formatEndOfFile, processFile's write decision; bufio.Scanner is the model Base/Lines.v (validated in suite scan). bytes.TrimSpace is modelled for ASCII white space only (generators avoid U+0085/U+00A0). Idempotence and --check agreement are decided per generated file by the oracle, not yet by a theorem.",
     "assumptions": ["lines handled by the regexps contain no newline (guaranteed by the scanner)", "no Unicode white space beyond ASCII at line ends"],
@@ -51,7 +51,7 @@ PROPS["C11"] = {
     "assumptions": ["rule ids are six ASCII digits (regexp.MustCompile of id:NNNNNN is a literal search)"],
 }
 PROPS["C12"] = {
-    "suites": ["update_cli"],
+    "suites": ["update_cli", "compare_history"],
     "level_text": "Kernel-checked theorems: compare's verdict is byte equality; update and compare use the same location and operand delimitation for all inputs; read-after-update for every regex is refuted by a model witness (regex containing the operator marker) replayed on the binary (known finding). Histories update->compare, update->update, flip-one-byte->compare run on the binary for every generated tree; the model's read_current is compared with compare's verdict.",
     "level_note": "Trusted as C11. The diff layout printed by compare and its exit status mapping are observed on the binary, not modelled. read-after-update for marker-free regexes is decided per generated case, not yet by a theorem.",
     "assumptions": ["as C11"],
